@@ -331,7 +331,7 @@ def run_request_unguarded(schema, query, variables, world, config, schedule=None
             loop = asyncio.new_event_loop()
             try:
                 asyncio.set_event_loop(loop)
-                rt = AsyncIORuntime(loop=loop)
+                rt = AsyncIORuntime()            # built the documented way, before the loop runs: it finds the thread's current event loop
                 res = loop.run_until_complete(asyncio.wait_for(process_graphql_query(schema, query, executor_cls=Executor, runtime=rt, **kw), 30))
             finally:
                 try:
@@ -452,6 +452,9 @@ OPERATIONS = [
     ("mutation { a(n: 1) b { name } c d }", {}),
     ("mutation M($n: Int = 2) { x: a(n: $n) y: a(n: 3) d }", {}),
     ("mutation { a(n: 1) __typename b { name } t: __typename d }", {}),
+    # both conditions on one selection, either order: the selection stays only if it is not skipped AND included
+    ("query ($t: Boolean!, $f: Boolean!) { me { name @skip(if: $t) @include(if: $t) age @include(if: $t) @skip(if: $f) strict @skip(if: $f) @include(if: $f) "
+     "x: name @include(if: $f) @skip(if: $t) } count @skip(if: $t) @include(if: $t) }", {"t": True, "f": False}),
     ("subscription { tick }"[:0] or "{ count t: __typename me { __typename name } __typename }", {}),
 ]
 
